@@ -8,6 +8,19 @@
   optionally sum / average over time, reshape C-order to (L2+1, L1+1), trim [1:-1, 1:-1]),
   for all non-decreasing carrier and AM edge vectors, all frequency arrays (NaN = `none`),
   all amplitude arrays, both modes, every size.
+
+  Edge orientation.  `np.digitize` also accepts DEcreasing edges, with the mirrored convention
+  `edges[i-1] > v ≥ edges[i]` (NaN ↦ 0); the model follows it (`digitizeM`, theorem
+  `decreasing_edges_digitize`), so the theorems without a sortedness hypothesis (`holo_sparse_in_shape`,
+  `holo_shape`, `holo_sum_eq`, `holo_mean_eq`, `holo_energy_is_square`, `holo_nnz`) and the correspondence
+  check cover decreasing edges too.  The histogram SPEC theorems (`holo_eq_spec`, `holo_total`,
+  `holo_sparse_one_per_sample`) are stated for non-decreasing edges only: on decreasing edges bin b
+  collects `edges[b+1] ≤ f < edges[b]` (cases tagged `outside-domain:decreasing-edges`).  Non-monotonic
+  edges: ValueError (protocol handler).
+
+  `squash_time`: the code tests `is False`, `== 'mean'`, `== 'sum'`; every other value raises TypeError
+  after the sparse matrix is built (`squash_other_raises`); the mean over an empty time axis raises
+  ZeroDivisionError (`mean_empty_raises`) — in ℚ `x / 0 = 0`, so `holo_mean_eq` is stated for `0 < T`.
 -/
 import Proofs.Lemmas.SpectraHolo
 
@@ -23,9 +36,9 @@ theorem unfold_fold (L1 d1 d2 : Nat) (h : d1 ≤ L1) :
 /-- The digitised carrier index always satisfies the side condition of `unfold_fold`, and every sparse
     entry lies inside the `[T × (L1+1)(L2+1)]` matrix (so `coo_matrix` accepts all of them). -/
 theorem holo_sparse_in_shape (e1 e2 : List Rat) (energy : Bool) (rows : List HoloRow) :
-    (∀ f, digitizeF e1 f ≤ e1.length) ∧
+    (∀ f, digitizeM e1 f ≤ e1.length) ∧
     ∀ x ∈ holoCoo e1 e2 energy rows, x.row < rows.length ∧ x.col < holoCols e1 e2 := by
-  refine ⟨digitizeF_le_length e1, ?_⟩
+  refine ⟨digitizeM_le_length e1, ?_⟩
   intro x hx
   obtain ⟨i, r, h1, h2⟩ := mem_cooFrom _ x 0 _ hx
   have hi := (List.getElem?_eq_some_iff.mp h1).1
@@ -107,8 +120,11 @@ theorem holo_sum_eq (e1 e2 : List Rat) (energy : Bool) (rows : List HoloRow) :
   simp only [Function.comp_def]
   rw [cellAt_tab _ _ _ a c ha hc]
 
-/-- `squash_time='mean'`: the output equals the mean over time of the full output, cell by cell. -/
-theorem holo_mean_eq (e1 e2 : List Rat) (energy : Bool) (rows : List HoloRow) :
+/-- `squash_time='mean'`: the output equals the mean over time of the full output, cell by cell — for at
+    least one time sample (`_hT`; the code raises ZeroDivisionError on an empty time axis, see
+    `mean_empty_raises`; the equation itself also holds at T = 0 in ℚ, where `x / 0 = 0`, but says nothing
+    about the code there). -/
+theorem holo_mean_eq (e1 e2 : List Rat) (energy : Bool) (rows : List HoloRow) (_hT : 0 < rows.length) :
     holoMean e1 e2 energy rows =
       tab (e2.length - 1) (e1.length - 1) fun a c =>
         ((holo3d e1 e2 energy rows).map fun m => cellAt m a c).sum / (rows.length : Rat) := by
@@ -159,6 +175,70 @@ theorem holo_energy_is_square (e1 e2 : List Rat) (rows : List HoloRow) :
   · unfold holoSum; rw [hf]
   · unfold holoMean; rw [hf, List.length_map]
 
+/-! ## One sparse entry per sample -/
+
+/-- The sparse matrix holds exactly one entry per second-level sample (in range or not: an out-of-range
+    sample sits in a margin column that the final trim removes), and the entries that survive the trim
+    `[1:-1, 1:-1]` are exactly the samples whose carrier AND AM frequency are in range — one entry per
+    in-range sample (the analogue of `C10.hht_sparse_one_per_sample`). -/
+theorem holo_sparse_one_per_sample (e1 e2 : List Rat) (he1 : e1.Pairwise (· ≤ ·)) (he2 : e2.Pairwise (· ≤ ·))
+    (energy : Bool) (rows : List HoloRow) :
+    (holoCoo e1 e2 energy rows).length = (rows.map rowSamples).sum ∧
+    (holoCoo e1 e2 energy rows).countP (interior e1 e2) =
+      (rows.map fun r => ((List.zip r.f1 (List.zip r.f2 r.a2)).map fun x =>
+        (List.zip x.2.1 x.2.2).countP fun fa => inRange e2 fa.1 && inRange e1 x.1).sum).sum := by
+  unfold holoCoo
+  exact ⟨length_cooFrom _ _ (fun t r => length_holoRowTrips e1 e2 energy t r) 0 rows,
+    countP_cooFrom _ _ _ (fun t r => countP_interior_holoRowTrips e1 e2 he1 he2 energy t r) 0 rows⟩
+
+/-- On rectangular input `[T × M]`, `[T × M × K]`, `[T × M × K]` the sparse matrix has `T·M·K` entries: no
+    sample is dropped (edges of either orientation). -/
+theorem holo_nnz (e1 e2 : List Rat) (energy : Bool) (M K : Nat) (rows : List HoloRow) (h : Rect M K rows) :
+    (holoCoo e1 e2 energy rows).length = rows.length * M * K := by
+  unfold holoCoo
+  rw [length_cooFrom _ _ (fun t r => length_holoRowTrips e1 e2 energy t r) 0 rows,
+    sum_map_const rows rowSamples (M * K), Nat.mul_assoc]
+  intro r hr
+  obtain ⟨h1, h2, h3, h4, h5⟩ := h r hr
+  exact rowSamples_rect M K r h1 h2 h3 h4 h5
+
+/-! ## Decreasing edges, other `squash_time` values, empty time axis -/
+
+/-- What the model (and `np.digitize`) does on a DEcreasing edge vector that is not also non-decreasing:
+    the index is `b + 1` exactly for `e[b+1] ≤ v < e[b]`, NaN gets index 0, every index is ≤ len(e).  So
+    on decreasing edges output bin b is the interval between edges b and b+1 again, closed at its lower
+    end `e[b+1]`. -/
+theorem decreasing_edges_digitize (e : List Rat) (hle : sortedLe e = false) (hge : sortedGe e = true) :
+    (∀ (v : Rat) (b : Nat) (hb : b + 1 < e.length), digitizeM e (some v) = b + 1 ↔ e[b + 1] ≤ v ∧ v < e[b]) ∧
+    digitizeM e none = 0 ∧ ∀ f, digitizeM e f ≤ e.length := by
+  refine ⟨fun v b hb => ?_, by simp [digitizeM, hle, digitizeDecF], digitizeM_le_length e⟩
+  simp only [digitizeM, hle, Bool.false_eq_true, ite_false, digitizeDecF]
+  exact digitizeDec_spec e (pairwise_ge_of_sortedGe e hge) v b hb
+
+/-- On non-decreasing edges the model's digitiser is the increasing-edge one used by the SPEC theorems. -/
+theorem increasing_edges_digitize (e : List Rat) (he : e.Pairwise (· ≤ ·)) (f : Freq) :
+    digitizeM e f = digitizeF e f := digitizeM_of_pairwise e he f
+
+/-- A `squash_time` that is none of `False`, `'sum'`, `'mean'` (e.g. `True`, `0`, `None`, `'Sum'`) raises
+    TypeError (the code subscripts the still-sparse matrix), whatever the data. -/
+theorem squash_other_raises (e1 e2 : List Rat) (energy : Bool) (rows : List HoloRow) :
+    holoOut .other e1 e2 energy rows = .error .typeError := rfl
+
+/-- The mean over an empty time axis raises ZeroDivisionError; with at least one time sample the three
+    recognised settings return the three outputs characterised above. -/
+theorem mean_empty_raises (e1 e2 : List Rat) (energy : Bool) (rows : List HoloRow) :
+    (holoOut .mean e1 e2 energy rows = .error .zeroDivision ↔ rows.length = 0) ∧
+    (0 < rows.length → holoOut .mean e1 e2 energy rows = .ok (.flat (holoMean e1 e2 energy rows))) ∧
+    holoOut .sum e1 e2 energy rows = .ok (.flat (holoSum e1 e2 energy rows)) ∧
+    holoOut .full e1 e2 energy rows = .ok (.full (holo3d e1 e2 energy rows)) := by
+  refine ⟨?_, ?_, rfl, rfl⟩
+  · unfold holoOut
+    by_cases h : rows.length = 0 <;> simp [h]
+  · intro h
+    unfold holoOut
+    simp only []
+    rw [if_neg (by omega)]
+
 /-! Non-vacuity: 2 time rows, 2 first-level IMFs, 2 second-level IMFs, independent bin sets
     (3 carrier bins, 2 AM bins), frequencies in range, on edges, out of range and NaN. -/
 def exRows : List HoloRow :=
@@ -170,5 +250,21 @@ example : holo3d [1, 2, 3, 4] [0, 1, 2] true exRows =
     [[[4, 0, 0], [1, 0, 0]], [[0, 9, 0], [0, 0, 4]]] := by decide +kernel
 example : holoSum [1, 2, 3, 4] [0, 1, 2] true exRows = [[4, 9, 0], [1, 0, 4]] := by decide +kernel
 example : holoMean [1, 2, 3, 4] [0, 1, 2] false exRows = [[1, 3/2, 0], [1/2, 0, 1]] := by decide +kernel
+example : Rect 2 2 exRows := by
+  intro r hr
+  simp only [exRows, List.mem_cons, List.not_mem_nil, or_false] at hr
+  rcases hr with rfl | rfl <;> simp
+example : (holoCoo [1, 2, 3, 4] [0, 1, 2] true exRows).length = 2 * 2 * 2 := by decide +kernel
+-- 4 of the 8 samples are in range on both axes: 4 entries survive the trim
+example : (holoCoo [1, 2, 3, 4] [0, 1, 2] true exRows).countP (interior [1, 2, 3, 4] [0, 1, 2]) = 4 := by decide +kernel
+/-- Decreasing carrier edges (checked against the real code, c11.py corpus `decreasing-edges`):
+    `holospectrum(F1, F2, A2, [3,2,1], [0,1,2], mode='amplitude', squash_time=False)` with
+    F1 = [[1.5,2.5],[3.0,0.5]], F2 = [[[0.5,1.5],[1.0,2.0]],[[0.0,1.2],[nan,0.1]]], A2 = 1,2,4,…,128. -/
+def decRows : List HoloRow :=
+  [⟨[some (3/2), some (5/2)], [[some (1/2), some (3/2)], [some 1, some 2]], [[1, 2], [4, 8]]⟩,
+   ⟨[some 3, some (1/2)], [[some 0, some (6/5)], [none, some (1/10)]], [[16, 32], [64, 128]]⟩]
+example : sortedLe [3, 2, 1] = false ∧ sortedGe [3, 2, 1] = true := by constructor <;> decide +kernel
+example : holo3d [3, 2, 1] [0, 1, 2] false decRows = [[[0, 1], [4, 2]], [[0, 0], [0, 0]]] := by decide +kernel
+example : holoSum [1, 2, 3] [2, 1, 0] false decRows = [[2, 4], [1, 0]] := by decide +kernel
 
 end C11
